@@ -5,6 +5,7 @@ entry already has one; new entries take theirs from WHY below."""
 import json, re, subprocess
 
 WHY = {
+    "KF-C06-fission-block": "needs a block-aware forwarding function for the split (the range has to grow by one statement); found in the last hours of the project by the thorough tier",
     "KF-C04-autolift-if": "autolift_alloc is the deprecated implementation (lift_alloc is the checked one)",
     "KF-C06-liftscope-else": "needs a forwarding function of its own for the duplicated else-branch (the edits compose a wrap and a replace that map cursors of the else-branch to the replaced statement); rare shape, over-approximation is harmless for schedules that do not keep cursors into that branch",
     "KF-C04-sinkalloc-loop": "the per-iteration read-before-write analysis is a TODO in DoSinkAlloc itself (needs a new effect query)",
